@@ -91,6 +91,26 @@ def selectNodes (g : Graph) (base : String) (idx : Option (List Int)) (rng : Opt
   | none, none, some l => g.nodesFromLvl base l
   | _, _, _ => throw (.selector "idx, range and lvl are mutually exclusive")
 
+/-- equal lengths pair up as they are; with `allow_multi` every element of the shorter side is
+    repeated so that the lengths match -/
+def matchLists (multi : Bool) (srcs dsts : List String) : D (List String × List String) :=
+  let ns := srcs.length
+  let nd := dsts.length
+  if ns == nd then pure (srcs, dsts)
+  else if multi && nd != 0 && ns % nd == 0 && ns > nd then
+    pure (srcs, dsts.flatMap fun t => List.replicate (ns / nd) t)
+  else if multi && ns != 0 && nd % ns == 0 && nd > ns then
+    pure (srcs.flatMap fun s => List.replicate (nd / ns) s, dsts)
+  else throw (.count "srcs and dsts must have the same length or `allow_multi` must be `True` and lengths must be dividable by each other")
+
+/-- one link (and its reverse) per (source, destination) pair -/
+def connectPairs (c : ConnDesc) (pairs : List (String × String)) (g : Graph) : D Graph :=
+  pairs.foldlM (fun g (x : String × String) => do
+    let g ← g.addEdge { src := x.1, dst := x.2, kind := .link, srcDir := c.srcDir, dstDir := c.dstDir }
+    if c.bidirectional then
+      g.addEdge { src := x.2, dst := x.1, kind := .link, srcDir := c.dstDir, dstDir := c.srcDir }
+    else pure g) g
+
 def createConnections (d : Desc) (g : Graph) : D Graph :=
   d.connections.foldlM (fun g c => do
     let srcs ← selectNodes g c.src c.srcIdx c.srcRange c.srcLvl
@@ -105,20 +125,8 @@ def createConnections (d : Desc) (g : Graph) : D Graph :=
         else pure n
     let srcs ← srcs.mapM niOf
     let dsts ← dsts.mapM niOf
-    let ns := srcs.length
-    let nd := dsts.length
-    let (srcs, dsts) ←
-      if ns == nd then pure (srcs, dsts)
-      else if c.allowMulti && nd != 0 && ns % nd == 0 && ns > nd then
-        pure (srcs, dsts.flatMap fun t => List.replicate (ns / nd) t)
-      else if c.allowMulti && ns != 0 && nd % ns == 0 && nd > ns then
-        pure (srcs.flatMap fun s => List.replicate (nd / ns) s, dsts)
-      else throw (.count "srcs and dsts must have the same length or `allow_multi` must be `True` and lengths must be dividable by each other")
-    (srcs.zip dsts).foldlM (fun g (s, t) => do
-      let g ← g.addEdge { src := s, dst := t, kind := .link, srcDir := c.srcDir, dstDir := c.dstDir }
-      if c.bidirectional then
-        g.addEdge { src := t, dst := s, kind := .link, srcDir := c.dstDir, dstDir := c.srcDir }
-      else pure g) g) g
+    let (srcs, dsts) ← matchLists c.allowMulti srcs dsts
+    connectPairs c (srcs.zip dsts) g) g
 
 def createNetwork (d : Desc) : D Graph := do
   let g ← createRouters d {}
